@@ -178,6 +178,12 @@ func RunRegistry(behs [][]Step, tr *Trace, env Env, sum *Summary) {
 				}
 			}()
 			tr.Emit(map[string]any{"ev": "Reset"})
+			hasRestart := false
+			for _, st := range beh {
+				if st.Str("op") == "Restart" {
+					hasRestart = true
+				}
+			}
 			for si, st := range beh {
 				if s.stuck {
 					break
@@ -188,6 +194,8 @@ func RunRegistry(behs [][]Step, tr *Trace, env Env, sum *Summary) {
 				}
 				sum.Counters["op."+op]++
 				done, ok := true, true
+				cfgDiff := []string{}
+				restoredCheck := func() {}
 				fail := func(kind, detail string) {
 					done = false
 					sum.Incidents = append(sum.Incidents, Incident{Behaviour: bi, Step: si, Kind: kind, Site: op, Detail: detail})
@@ -218,6 +226,12 @@ func RunRegistry(behs [][]Step, tr *Trace, env Env, sum *Summary) {
 						_, had := s.ports[a]
 						cfg := handlers.HTTPConfig{Name: a, Hosts: []string{"127.0.0.1"}, HostBind: "127.0.0.1", PortBind: p, HostRotation: "round-robin", UserAgent: uaOf(0),
 							BehindRedir: w.TS.Profile.Config.Demon.TrustXForwardedFor} // as the operator's Add does it
+						if hasRestart {
+							// everything an operator can set, so that a restart has something to lose
+							cfg.KillDate, cfg.WorkingHours, cfg.Methode, cfg.PortConn, cfg.HostHeader = 1893456000, "8:00-17:00", "POST", p, "front.example"
+							cfg.Proxy.Enabled, cfg.Proxy.Type, cfg.Proxy.Host, cfg.Proxy.Port, cfg.Proxy.Username, cfg.Proxy.Password = true, "http", "proxy.example", "3128", "pu", "pp"
+							cfg.Response.Headers = []string{"X-R: r, s"}
+						}
 						call(func() { err = w.TS.ListenerStart(handlers.LISTENER_HTTP, cfg) })
 						if err == nil && !had {
 							s.ports[a] = p
@@ -366,6 +380,33 @@ func RunRegistry(behs [][]Step, tr *Trace, env Env, sum *Summary) {
 					time.Sleep(80 * time.Millisecond)
 					ok = fmt.Sprint(s.project()) != before
 				case "Restart":
+					// what the HTTP listeners are configured with before the restart
+					saved := map[string]handlers.HTTPConfig{}
+					for _, l := range w.TS.Listeners {
+						if h, isHTTP := l.Config.(*handlers.HTTP); isHTTP {
+							saved[l.Name] = h.Config
+						}
+					}
+					restoredCheck = func() {
+						for _, l := range w.TS.Listeners {
+							h, isHTTP := l.Config.(*handlers.HTTP)
+							if !isHTTP {
+								continue
+							}
+							was, now := saved[l.Name], h.Config
+							for _, f := range [][3]string{{"KillDate", fmt.Sprint(was.KillDate), fmt.Sprint(now.KillDate)}, {"WorkingHours", was.WorkingHours, now.WorkingHours},
+								{"Hosts", fmt.Sprint(was.Hosts), fmt.Sprint(now.Hosts)}, {"HostBind", was.HostBind, now.HostBind}, {"Methode", was.Methode, now.Methode},
+								{"HostRotation", was.HostRotation, now.HostRotation}, {"PortBind", was.PortBind, now.PortBind}, {"PortConn", was.PortConn, now.PortConn},
+								{"UserAgent", was.UserAgent, now.UserAgent}, {"Headers", fmt.Sprintf("%q", was.Headers), fmt.Sprintf("%q", now.Headers)},
+								{"Uris", fmt.Sprintf("%q", was.Uris), fmt.Sprintf("%q", now.Uris)}, {"HostHeader", was.HostHeader, now.HostHeader},
+								{"Secure", fmt.Sprint(was.Secure), fmt.Sprint(now.Secure)}, {"Proxy", fmt.Sprint(was.Proxy), fmt.Sprint(now.Proxy)},
+								{"ResponseHeaders", fmt.Sprintf("%q", was.Response.Headers), fmt.Sprintf("%q", now.Response.Headers)}} {
+								if f[1] != f[2] {
+									cfgDiff = append(cfgDiff, fmt.Sprintf("%s.%s: %s -> %s", l.Name, f[0], f[1], f[2]))
+								}
+							}
+						}
+					}
 					// the old process' HTTP listeners: still bound ("busy": a lingering process holds the ports while the new one
 					// starts), or stopped first so that the ports are free
 					for _, l := range w.TS.Listeners {
@@ -397,6 +438,7 @@ func RunRegistry(behs [][]Step, tr *Trace, env Env, sum *Summary) {
 						}
 						fail(map[bool]string{true: "hang", false: "panic"}[to], firstLines(pan, 14))
 					}
+					restoredCheck()
 					if b == "busy" {
 						time.Sleep(7 * time.Second) // a listener that could not bind is given up after a few seconds: what happens to it then?
 					} else {
@@ -439,7 +481,7 @@ func RunRegistry(behs [][]Step, tr *Trace, env Env, sum *Summary) {
 				for _, p := range s.svc.TakePanics() {
 					fail("panic", firstLines(p, 14))
 				}
-				tr.Emit(map[string]any{"ev": op, "a": a, "b": b, "res": map[string]any{"ok": ok, "done": done}, "st": s.project()})
+				tr.Emit(map[string]any{"ev": op, "a": a, "b": b, "res": map[string]any{"ok": ok, "done": done, "cfgsame": len(cfgDiff) == 0, "cfgdiff": cfgDiff}, "st": s.project()})
 			}
 			if bi < 2 {
 				sum.Samples = append(sum.Samples, beh)
